@@ -34,6 +34,14 @@ AREAS = {
                 '(thorough -470 KB) with small, medium and maximum-size messages, short garbage, and in a third of the cases maximum-size messages '
                 'with an embedded marker followed by non-marker bytes, half of them with a first read that ends exactly at the message end (+0..3)',
     },
+    'pos': {
+        'shrink_sep': ';', 'head_sep': ' ',
+        'rule': 'a suffix S (up to 4 items of the dp generator - messages and garbage, clean or malformed, cut to 300 bytes each - and in 5 of 8 cases a '
+                'directed front: a truncated message that embeds a complete message of either framing, a message the corrupt-message heuristic rejects '
+                'that embeds complete messages of both framings, garbage followed by a frame of the other framing) read by DltMessageIterator '
+                '(A) alone, (B) behind k1 and (C) behind k2 complete marker-free messages of its framing, 1 <= k1 < k2 <= 6, start index chosen so that '
+                'the messages of S are numbered alike; B = C is demanded (theorem C04_position_independent_partial), A = B is the clause of the known finding',
+    },
     'ft': {
         'shrink_sep': ';', 'head_sep': ' | ',
         'rule': '1-3 concurrent transfers (package size 1-6 / thorough 1-40, 1-5 / 1-12 packages, last package full or shorter, in one of ten an empty file (one package without data), announced size true or - as a fault that must prevent completion - 0, '
@@ -99,7 +107,8 @@ AREAS = {
                 '(thorough 1-160) messages - one case in 60 (thorough 12) over 140 000-160 000 messages, beyond the part chunk size of the query loop - driven by '
                 '2-11 (thorough 2-16) events: n more messages arrive, one server round = process_stream_new_msgs(offset = progress mark, everything new, '
                 'max_chunk_size in {0,1,2, small, 64, 65535-65537, 3 000 000, window sized}), window change; three quarters of the cases end with everything '
-                'arrived and three full rounds',
+                'arrived and three full rounds; one case in five models collect mode one_pass_streams: the stream is created after d messages were parsed and '
+                'dropped, every round starts at max(min(progress mark, available), d)',
     },
     'c03': {
         'shrink_sep': ';', 'head_sep': ' | ', 'head_last': True,
@@ -178,12 +187,12 @@ PROPS = {
         'n_quick': [5000, 1500], 'n_thorough': [200000, 60000],
     },
     'C04': {
-        'id': 'C04', 'area': ['lm', 'lw'],
+        'id': 'C04', 'area': ['lm', 'lw', 'pos'],
         'theorems': ['Props.C04_reader_invariant', 'Props.C04_fill_hands_out_source', 'Props.C04_read_in_order',
                      'Props.C04_seek_within_buffer', 'Props.C04_parse_window', 'Props.C04_min_buffer_suffices', 'Props.C04_ready_invariant', 'Props.C04_low_mark_kept',
                      'Props.C04_read_not_early', 'Props.C04_chunking_independent', 'Props.C04_chunking_independent_from',
-                     'Props.C04_position_independent', 'Props.C04_consts'],
-        'n_quick': [1500, 60], 'n_thorough': [40000, 1500],
+                     'Props.C04_position_independent_partial', 'Props.C04_position_unlatched_witness', 'Props.C04_consts'],
+        'n_quick': [1500, 60, 1500], 'n_thorough': [40000, 1500, 60000],
     },
     'C17': {
         'id': 'C17', 'area': 'ft',
@@ -223,7 +232,8 @@ PROPS = {
     },
     'C19': {
         'id': 'C19', 'area': 'plg',
-        'theorems': ['Props.C19_anon_table_injective', 'Props.C19_anon_format_injective', 'Props.C19_anon_capacity_sharp', 'Props.C19_decoders_conservative', 'Props.C19_decoders_keep_timestamp'],
+        'theorems': ['Props.C19_anon_table_injective', 'Props.C19_anon_format_injective', 'Props.C19_anon_capacity_sharp', 'Props.C19_decoders_conservative', 'Props.C19_decoders_keep_timestamp',
+                     'Props.C19_anon_stream_ecu', 'Props.C19_anon_stream_apid', 'Props.C19_anon_stream_ctid', 'Props.C19_anon_stream_bound'],
         'n_quick': 1500, 'n_thorough': 40000,
     },
     'C15': {
@@ -236,7 +246,7 @@ PROPS = {
         'id': 'C16', 'area': ['rem', 'rsn'],
         'theorems': ['Props.C16_window_exact', 'Props.C16_sequence_is_filtered_log', 'Props.C16_stream_delivers_window', 'Props.C16_search_paging',
                      'Props.C16_lookup_first_not_before', 'Props.C16_any_schedule_invariant', 'Props.C16_settled_is_window',
-                     'Props.C16_eventually_settles', 'Props.C16_consts'],
+                     'Props.C16_eventually_settles', 'Props.C16_late_stream_rounds', 'Props.C16_consts'],
         'n_quick': [250, 3000], 'n_thorough': [4000, 150000], 'env': {'VERIF_JOBS': '16'},
     },
     'C03': {
